@@ -2,12 +2,24 @@
 
    Proved for the emitter model: a fieldset whose fields are all `_` is emitted unit-like; every
    type definition starts with the declaration's attributes followed by `pub struct <name>` /
-   `pub enum <name>`.  The full shape (used fields only, Box for nonterminals, declared payload
-   types, public struct fields, parse signature) is decided by the check: the real type
-   definitions are compared token for token with the definitions expected from the declarations,
-   and a client that uses every declared item from outside the module is type-checked by rustc. *)
+   `pub enum <name>`.
+   AND the full shape, for every source the model of `generate` accepts (C06_module_declares;
+   Emit/TypedefSpec.v, Emit/ModuleShape.v): after its header the emitted text is the terminal
+   enum `pub enum <name> { <variants> }` preceded by its attributes, then one definition per
+   nonterminal in declaration order, then `pub fn parse<P>(src: P) -> Result<<start>,
+   Option<<terminal enum>>> where P: IntoIterator<Item = <terminal enum>> {`; and each definition
+   is `typedef_spec` of its declaration: its attributes, `pub struct N` / `pub enum N`, the
+   variants in order, and for every fieldset exactly the used (non-`_`) fields in order — `pub`
+   in a struct — a nonterminal-typed field of type `Box<N>`, a terminal-typed field of the payload
+   type declared for that terminal (C06_fields_are_the_used_fields_in_order), unit-like when no
+   field is used.  The shape of the template is checked by vm_compute on the template
+   regenerated from table_to_rust.rs on this run.
+   What rustc makes of that text (and that nothing else in the module shadows these items) is
+   decided by the check: the real type definitions are compared token for token with the
+   definitions expected from the declarations, and a client that uses every declared item from
+   outside the module is type-checked by rustc. *)
 From Coq Require Import List.
-From Kiki Require Import Base.Ord Base.Chars Data Emit.Emit Emit.EmitProofs.
+From Kiki Require Import Base.Ord Base.Chars Data Emit.Emit Emit.EmitProofs Emit.TypedefSpec Emit.ModuleShape Pipeline PipelineProofs.
 
 Theorem C06_only_underscore_named_fieldset_is_unit_like : forall f l semi pub_,
   named_used l = false -> named_fieldset_src f l semi pub_ = Ok (empty_fieldset_src semi).
@@ -23,6 +35,33 @@ Theorem C06_definition_header : forall f n s, nonterminal_type_def_src f n = Ok 
           ++ (match n with NStruct _ => S_ "pub struct " | NEnum _ => S_ "pub enum " end) ++ nt_name n ++ rest.
 Proof. exact typedef_starts_with_its_attributes. Qed.
 
+Theorem C06_fields_are_the_used_fields_in_order : forall f pub_ l ls, named_lines f pub_ l = Some ls ->
+  length ls = length (filter named_is_used l) /\
+  Forall2 (fun x line => exists ty, field_type_spec f (nf_symbol x) = Some ty /\ line = named_line pub_ x ty) (filter named_is_used l) ls.
+Proof. exact named_lines_filter. Qed.
+Theorem C06_tuple_fields_are_the_used_fields_in_order : forall f pub_ l ls, tuple_lines f pub_ l = Some ls ->
+  length ls = length (filter tuple_is_used l) /\
+  Forall2 (fun x line => exists ty, field_type_spec f (tuple_field_sym x) = Some ty /\ line = tuple_line pub_ ty) (filter tuple_is_used l) ls.
+Proof. exact tuple_lines_filter. Qed.
+Theorem C06_definition_is_its_specification : forall f n s, nonterminal_type_def_src f n = Ok s -> typedef_spec f n = Some s.
+Proof. exact typedef_src_spec. Qed.
+Theorem C06_module_declares : forall ho digest src text,
+  generate_model ho digest src = Ok text ->
+  exists v nm defs pre c rest,
+    front_end src = Ok v /\
+    Forall2 (fun n d => typedef_spec v n = Some d) (vf_nts v) defs /\
+    let P := n_parse_type_param nm in let tenum := vt_name (vf_tenum v) in
+    text = (pre ++ attributes_src (vt_attrs (vf_tenum v)) ++ S_ "pub enum " ++ tenum ++ S_ " {
+" ++ indent 1 (terminal_enum_variants_src v) ++ S_ "
+}
+
+" ++ join (nl ++ nl) defs ++ c ++ S_ "pub fn parse<" ++ P ++ S_ ">(src: " ++ P ++ S_ ") -> Result<" ++ vf_start v ++ S_ ", Option<" ++ tenum ++ S_ ">>
+where " ++ P ++ S_ ": IntoIterator<Item = " ++ tenum ++ S_ "> {" ++ rest)%list.
+Proof. exact generate_module_declares. Qed.
+Print Assumptions C06_fields_are_the_used_fields_in_order.
+Print Assumptions C06_tuple_fields_are_the_used_fields_in_order.
+Print Assumptions C06_definition_is_its_specification.
+Print Assumptions C06_module_declares.
 Print Assumptions C06_only_underscore_named_fieldset_is_unit_like.
 Print Assumptions C06_only_underscore_tuple_fieldset_is_unit_like.
 Print Assumptions C06_definition_header.
